@@ -50,6 +50,8 @@ def conv_expect_int(ty, kind, text):
 
 
 def conv_oracle(line, case):
+    if line.startswith('mismatch'):
+        return 'the conversion of `Value` and of `&Value` give different results: ' + line
     if is_crash(line):
         return 'crash'
     exp = case.meta.get('expect')
